@@ -608,3 +608,6 @@ def run (ctx):
   for f in (pin, dl, exp, cdown, mk, ut, cst):
     for nm, node in defs.undefined_names(repo, f):
       ctx.bad('R-DEF', f, "undefined name `%s`" % nm, "NameError on this path", (f.module, node), 'D1')
+  # ---- mechanisms this property shares with others: their checks' rules about these functions are obligations here too
+  ctx.include('C17', ['PortCollection.'], "the spanning tree walks the connection's port view")
+  ctx.include('C09', ['Connection.disconnect', 'OpenFlowNexus._disconnect', 'OpenFlowNexus._connect'], 'discovery reacts to connection up / down events and the registry')
